@@ -21,8 +21,17 @@ impl BananaShower {
             let mut count = 0;
 
             while time <= end_time {
-                time += spacing;
+                let next_time = time + spacing;
                 count += 1;
+
+                // For times beyond 2^24ms the spacing can be smaller than
+                // what f32 is able to resolve in which case adding it makes
+                // no progress and the loop would never end.
+                if next_time <= time {
+                    break;
+                }
+
+                time = next_time;
             }
 
             count
